@@ -1,7 +1,7 @@
 (** C08 — TSM files and tombstones read back what was written.  Property theorems only.
     Models: Model/C08_File.v (bytes), Model/C08_Index.v (parsed index + deletes), Model/C08.v (specs, judge). *)
 From Verif Require Import Base.Prelude Base.C08_BE Model.C08_File Model.C08_Index Model.C08.
-From Verif Require Import Proofs.C08_Tomb Proofs.C08_Search.
+From Verif Require Import Proofs.C08_Tomb Proofs.C08_Search Proofs.C08_Delete Proofs.C08_Reader.
 
 (** ** Framing integers *)
 Theorem C08_be_roundtrip : forall n v, (v < 256 ^ N.of_nat n)%N -> unbe (be n v) = v /\ length (be n v) = n.
@@ -94,6 +94,50 @@ Proof.
   - vm_compute. discriminate.
 Qed.
 Print Assumptions C08_time_range_negative_refuted.
+
+(** ** Deletes hide exactly the given keys / ranges
+    [wf_dr]: keys strictly sorted and inside [minKey,maxKey]; per key the first entry has the least
+    min time and the last the greatest max time; all entries inside the file's [minTime,maxTime].
+    A "visible point" (k,t) is [contains_value ix k t = true]: some block of k spans t and no
+    tombstone range of k covers t — whether the key was dropped from the index (fully-deleted
+    shortcut, coalescing window) or merely tombstoned is not observable through it. *)
+Theorem C08_open_index_wf_dr : forall all, ksorted all -> Forall wf_ents all -> wf_dr (index_of all).
+Proof. exact index_of_wf_dr. Qed.
+Print Assumptions C08_open_index_wf_dr.
+
+Theorem C08_delete_removes_exactly : forall ix ks, wf_index ix ->
+  ix_keys (index_delete ix ks) = filter (fun ik => negb (kmem (ik_key ik) ks)) (ix_keys ix) /\
+  wf_index (index_delete ix ks) /\
+  forall k t, contains_value (index_delete ix ks) k t = contains_value ix k t && negb (kmem k ks).
+Proof.
+  intros ix ks H. split; [apply (index_delete_keys ix ks H)|]. split; [apply index_delete_wf; exact H|].
+  intros k t. apply index_delete_cv; exact H.
+Qed.
+Print Assumptions C08_delete_removes_exactly.
+
+Theorem C08_delete_range_hides_exactly : forall ix ks lo hi k t, wf_dr ix -> in_i64 t ->
+  contains_value (index_delete_range ix ks lo hi) k t
+  = contains_value ix k t && negb (kmem k ks && in_range t (lo, hi)).
+Proof. exact delete_range_hides. Qed.
+Print Assumptions C08_delete_range_hides_exactly.
+
+Theorem C08_delete_range_preserves_wf : forall ix ks lo hi, wf_dr ix -> wf_dr (index_delete_range ix ks lo hi).
+Proof. exact index_delete_range_wf. Qed.
+Print Assumptions C08_delete_range_preserves_wf.
+
+(** any history of deletes on an open index (unbounded): visible iff it was and no delete covers it *)
+Theorem C08_delete_history_hides_exactly : forall ds ix k t, wf_dr ix -> in_i64 t ->
+  contains_value (apply_dels ix ds) k t = contains_value ix k t && negb (deleted ds k t).
+Proof. exact dels_hide. Qed.
+Print Assumptions C08_delete_history_hides_exactly.
+
+(** persisted tombstones: reopening a file (applyTombstones over every record of the tombstone
+    file, batched by equal consecutive ranges in chunks of 4096) hides exactly the recorded ranges *)
+Theorem C08_reopen_hides_exactly_recorded : forall all file k t, ksorted all -> Forall wf_ents all -> in_i64 t ->
+  contains_value (r_ix (reader_open all file)) k t
+  = contains_value (index_of all) k t && negb (rcov (concat file) k t).
+Proof. exact reopen_hides. Qed.
+Print Assumptions C08_reopen_hides_exactly_recorded.
 
 (** ** Tombstone file v4 *)
 Section Gzip.
